@@ -175,8 +175,12 @@ func genClaimCase(r *Rng, variant int) *claimCase {
 			tx.AddTxOut(wire.NewTxOut(int64(r.Intn(100000)), r.Bytes(r.Pick(22, 23, 25, 34))))
 		}
 	}
-	if variant == 7 { // two outputs pay the main-chain script: the loop keeps the last one
+	if variant == 7 || variant == 10 { // several outputs pay the main-chain script: the loop keeps the last one
 		tx.AddTxOut(wire.NewTxOut(int64(amount/2+7), main))
+		if variant == 10 {
+			tx.AddTxOut(wire.NewTxOut(int64(r.Intn(5000)), r.Bytes(25)))
+			tx.AddTxOut(wire.NewTxOut(int64(amount/3+100000), main))
+		}
 	}
 	tx.LockTime = uint32(r.U64())
 	var full, stripped bytes.Buffer
@@ -262,7 +266,7 @@ func genClaim(r *Rng, n int, w *bufio.Writer) {
 	for i := 0; i < n; i++ {
 		v := 0
 		if i%3 == 2 {
-			v = 1 + (i/3)%9
+			v = 1 + (i/3)%10
 		}
 		fmt.Fprintln(w, genClaimCase(r, v).line())
 	}
